@@ -10,7 +10,9 @@ from harness.vloop import install
 ID = "C01"
 RULE = ("Hypothesis generates a typed pipeline spec (1-3 entries, 1-8 nodes from the synchronous "
         "catalogue with boundary parameters, fan-out/fan-in, optional unique-guarded feedback "
-        "edge) plus an interleaved list of (entry, value) emissions and collect.flush() events; "
+        "edge) plus an interleaved list of (entry, value) emissions (a plain None among the tagged elements in "
+        "a third of the cases) and collect.flush() events; odd-numbered nodes are built through the "
+        "aliases remove/scan/concat, map and starmap may carry extra positional and keyword arguments; "
         "the real graph and the reference model run the same events; oracle = the global "
         "recorder log (every node's emissions and every sink delivery, in order) is identical. "
         "Non-trivial: the graph has a fan-out, a fan-in or a stateful node AND some recorder "
